@@ -24,6 +24,15 @@ POOL = {
              "20 permit ip addrgroup G1 addrgroup G2 log", "permit 47 10.1.2.3 0.255.0.255 any", "permit tcp any gt 1023 any lt 1024 syn",
              "permit tcp any any eq drip", "permit ip 0.0.0.0/0 10.0.0.0/30", "permit ospf any any", "remark text one", "30 remark = H1", "permit ahp any any"],
 }
+# protocol keywords per platform, from Cisco's command references (`permit ?`); IOS additionally lists the spellings the library has always read on
+# IOS input ('ah', 'egp', 'ipip', 'ipv6'): they are accepted as *input* there, so demanding less of IOS output than of NX-OS output cannot alarm on a
+# correct tree.  A second spelling of one number ('ah' = 'ahp' = 51) or an IOS-only keyword must leave in the target's spelling (R13-S02).
+PROTO_KEYWORDS = {
+    "nxos": {"ahp", "eigrp", "esp", "gre", "icmp", "igmp", "ip", "nos", "ospf", "pcp", "pim", "tcp", "udp"},
+    "ios": {"ahp", "eigrp", "esp", "gre", "icmp", "igmp", "ip", "ipinip", "nos", "ospf", "pcp", "pim", "tcp", "udp", "sctp", "ah", "egp", "ipip", "ipv6"},
+}
+POOL["ios"] += ["permit ah any any", "permit egp any any", "permit ipip any any", "permit ipv6 any any", "permit esp any any", "permit 51 any any"]
+POOL["nxos"] += ["permit esp any any", "permit 51 any any", "permit 8 any any"]
 OTHER = {"ios": "nxos", "nxos": "ios"}
 
 
@@ -51,6 +60,8 @@ def native_violations(line, platform):
                     out.append(f"{t} with {n} ports")
     if "remark" not in toks[:2]:
         proto = toks[2] if toks[0].isdigit() else toks[1]
+        if not proto.isdigit() and proto not in PROTO_KEYWORDS[platform]:
+            out.append(f"protocol keyword {proto} unknown on {platform}")
         names = platform_names()[platform]
         tab = names[0] if proto in ("tcp", "6") else names[1] if proto in ("udp", "17") else None
         if tab is not None:
@@ -349,7 +360,7 @@ def main(chk):
             chk.finding(f["key"], f["what"], inputs=f["inputs"], cmd=f.get("cmd"), key=f["key"])
     chk.add_bounded("single Ace / Address / AddrGroup converted on their own", len(singles), len(singles), "gen_ace lines, all address spellings, three address groups; both directions",
                     viol, time.time() - t0, [list(singles[10])], exhaustive=False)
-    chk.assumptions += ["which port names a platform accepts is taken from the library's own tables (only for the `foreign syntax` clause)",
+    chk.assumptions += ["which port names a platform accepts is taken from the library's own tables (only for the `foreign syntax` clause); protocol keywords per platform are a table in props/C02.py written from the command references",
                         "multi-port neq entries are excluded here (C19)"]
     return chk.finish("other", "Bounded contract check of the platform setters with the independent reader on both sides and exact set algebra; the setters are "
                       "object-graph code (data()/__init__ round trips) outside the deductive subset.", trusted_base=["spec/cisco_ref.py", "spec/sets.py"])
